@@ -134,7 +134,28 @@ func buildFileModel(p *Prog) *fileModel {
 	m.filterFn = get("(*fracmanager.loader).filterInfos")
 	m.loadFn = get("(*fracmanager.loader).load")
 	if mk := get("(*fracmanager.loader).makeInfos"); mk != nil {
-		m.extractSuffixTable(mk)
+		// the suffix switch may sit in makeInfos or in a private helper it calls
+		seen := map[*ssa.Function]bool{}
+		var visit func(fn *ssa.Function, d int)
+		visit = func(fn *ssa.Function, d int) {
+			if fn == nil || fn.Blocks == nil || seen[fn] || !p.InRepo(fn) {
+				return
+			}
+			seen[fn] = true
+			m.extractSuffixTable(fn)
+			if d == 0 {
+				return
+			}
+			for _, call := range CallsIn(fn, nil) {
+				if h := StaticCallee(call); h != nil && PkgOf(h) == "fracmanager" {
+					visit(h, d-1)
+				}
+			}
+		}
+		visit(mk, 2)
+		if len(m.suffixFlag) == 0 {
+			m.problem("could not extract the suffix->flag table from makeInfos")
+		}
 	}
 	for _, f := range m.suffixFlag {
 		m.flags = append(m.flags, f)
@@ -189,9 +210,6 @@ func (m *fileModel) extractSuffixTable(fn *ssa.Function) {
 		case !fatal:
 			m.ignored[s] = true
 		}
-	}
-	if len(m.suffixFlag) == 0 {
-		m.problem("could not extract the suffix->flag table from makeInfos")
 	}
 }
 
@@ -254,6 +272,36 @@ func (m *fileModel) walkRegion(fn *ssa.Function, flags map[string]bool) ([][]eff
 	if b0 == nil {
 		return nil, "no read of a fracInfo flag found in " + FuncName(fn)
 	}
+	return m.walkFrom(fn, b0, flags, 2), ""
+}
+
+// hasLoaderEffects: fn (a private helper of the loader) removes files, loads fractions or reads fracInfo flags.
+func (m *fileModel) hasLoaderEffects(fn *ssa.Function) bool {
+	if fn == nil || fn.Blocks == nil || PkgOf(fn) != "fracmanager" {
+		return false
+	}
+	switch FuncName(fn) {
+	case "fracmanager.removeFractionFiles", "fracmanager.removeFile", "(*fracmanager.fractionProvider).NewActive", "(*fracmanager.loader).loadSealedFrac", "(*fracmanager.fractionProvider).NewSealed":
+		return false // modelled as effects themselves
+	}
+	return m.p.HasCall(fn, Callee("fracmanager.removeFile", "fracmanager.removeFractionFiles", "(*fracmanager.fractionProvider).NewActive", "frac.NewActive", "(*fracmanager.loader).loadSealedFrac", "(*fracmanager.fractionProvider).NewSealed", "frac.NewSealed"))
+}
+
+// walkFrom explores fn from block b0 (the blocks b0 dominates) under a flag
+// assignment and returns the effect sequence of every path. Private helpers of
+// the loader that have effects of their own are walked in place (depth levels).
+func (m *fileModel) walkFrom(fn *ssa.Function, b0 *ssa.BasicBlock, flags map[string]bool, depth int) [][]effect {
+	isFlagLoad := func(v ssa.Value) (string, bool) {
+		u, ok := v.(*ssa.UnOp)
+		if !ok || u.Op != token.MUL {
+			return "", false
+		}
+		typ, field, _, ok := FieldOf(u.X)
+		if !ok || typ != "fracmanager.fracInfo" || !strings.HasPrefix(field, "has") {
+			return "", false
+		}
+		return field, true
+	}
 	x := &FileOpExtractor{P: m.p, Cfg: fracCfgVar}
 	var out [][]effect
 	paths := 0
@@ -293,16 +341,23 @@ func (m *fileModel) walkRegion(fn *ssa.Function, flags map[string]bool) ([][]eff
 		}
 		return 0
 	}
+	add := func(cur []effect, e ...effect) []effect {
+		return append(append([]effect{}, cur...), e...)
+	}
 	var dfs func(b, from *ssa.BasicBlock, onPath map[*ssa.BasicBlock]bool, cur []effect)
+	var step func(b, from *ssa.BasicBlock, i int, onPath map[*ssa.BasicBlock]bool, cur []effect)
 	dfs = func(b, from *ssa.BasicBlock, onPath map[*ssa.BasicBlock]bool, cur []effect) {
 		paths++
 		if paths > 5000 {
 			return
 		}
-
-		for _, in := range b.Instrs {
+		step(b, from, 0, onPath, cur)
+	}
+	step = func(b, from *ssa.BasicBlock, i int, onPath map[*ssa.BasicBlock]bool, cur []effect) {
+		for ; i < len(b.Instrs); i++ {
+			in := b.Instrs[i]
 			if IsFatalInstr(in) {
-				out = append(out, append(append([]effect{}, cur...), effect{"fatal", in.Pos()}))
+				out = append(out, add(cur, effect{"fatal", in.Pos()}))
 				return
 			}
 			call, ok := in.(ssa.CallInstruction)
@@ -311,25 +366,40 @@ func (m *fileModel) walkRegion(fn *ssa.Function, flags map[string]bool) ([][]eff
 			}
 			switch name := CallName(call); name {
 			case "fracmanager.removeFractionFiles":
-				cur = append(append([]effect{}, cur...), effect{"delete", call.Pos()})
+				cur = add(cur, effect{"delete", call.Pos()})
 			case "fracmanager.removeFile":
-				ops := x.Seqs(StaticCallee(call))
-				_ = ops
 				if s, ok := xSuffix(x, call.Common().Args[0]); ok {
-					cur = append(append([]effect{}, cur...), effect{"remove:" + s, call.Pos()})
+					cur = add(cur, effect{"remove:" + s, call.Pos()})
 				} else {
-					cur = append(append([]effect{}, cur...), effect{"remove:?", call.Pos()})
+					cur = add(cur, effect{"remove:?", call.Pos()})
 				}
 			case "(*fracmanager.fractionProvider).NewActive", "frac.NewActive":
-				cur = append(append([]effect{}, cur...), effect{"active", call.Pos()})
+				cur = add(cur, effect{"active", call.Pos()})
 			case "(*fracmanager.loader).loadSealedFrac", "(*fracmanager.fractionProvider).NewSealed", "frac.NewSealed":
-				cur = append(append([]effect{}, cur...), effect{"sealed", call.Pos()})
+				cur = add(cur, effect{"sealed", call.Pos()})
 			case "builtin.append":
 				if strings.Contains(call.Common().Args[0].Type().String(), "fracInfo") {
-					cur = append(append([]effect{}, cur...), effect{"append", call.Pos()})
+					cur = add(cur, effect{"append", call.Pos()})
 				}
 			case "os.Remove", "os.Rename", "os.Create":
-				cur = append(append([]effect{}, cur...), effect{"rawfileop", call.Pos()})
+				cur = add(cur, effect{"rawfileop", call.Pos()})
+			default:
+				if _, isCall := in.(*ssa.Call); !isCall || depth <= 0 {
+					continue
+				}
+				h := StaticCallee(call)
+				if !m.hasLoaderEffects(h) {
+					continue
+				}
+				// a private helper with effects of its own: walk it in place, then go on after the call
+				for _, sub := range m.walkFrom(h, h.Blocks[0], flags, depth-1) {
+					if len(sub) > 0 && sub[len(sub)-1].kind == "fatal" {
+						out = append(out, add(cur, sub...))
+						continue
+					}
+					step(b, from, i+1, onPath, add(cur, sub...))
+				}
+				return
 			}
 		}
 		next := func(s *ssa.BasicBlock) {
@@ -367,7 +437,7 @@ func (m *fileModel) walkRegion(fn *ssa.Function, flags map[string]bool) ([][]eff
 		}
 	}
 	dfs(b0, nil, map[*ssa.BasicBlock]bool{b0: true}, nil)
-	return out, ""
+	return out
 }
 
 func xSuffix(x *FileOpExtractor, v ssa.Value) (string, bool) {
